@@ -17,6 +17,7 @@ import (
 	authtypes "github.com/cosmos/cosmos-sdk/x/auth/types"
 	consensusparamkeeper "github.com/cosmos/cosmos-sdk/x/consensus/keeper"
 	consensusparamtypes "github.com/cosmos/cosmos-sdk/x/consensus/types"
+	crisistypes "github.com/cosmos/cosmos-sdk/x/crisis/types"
 	govtypes "github.com/cosmos/cosmos-sdk/x/gov/types"
 	govv1 "github.com/cosmos/cosmos-sdk/x/gov/types/v1"
 	paramproposal "github.com/cosmos/cosmos-sdk/x/params/types/proposal"
@@ -289,6 +290,63 @@ func monC10RolledBackHandlerEffects(s *Stream) {
 		} {
 			if r := step(st.label, st.restart, st.msgs...); r != "" {
 				return r
+			}
+		}
+		return "pass"
+	}))
+}
+
+// mon.c10.restart-then-verify-invariant: what app.New registers in process memory at start (message routes, query
+// routes, the crisis module's invariant routes) must not depend on the height the process starts at.  Two nodes; one is
+// restarted after a committed block; a block then carries a crisis MsgVerifyInvariant for a registered route and one for
+// an unknown route.  Results and hashes must be those of the node that never stopped.
+func monC10RestartThenVerifyInvariant(s *Stream) {
+	name := "mon.c10.restart-then-verify-invariant"
+	s.Inflight(name)
+	s.Emit(name, guard(func() string {
+		accts := rtAccts()
+		a, err := NewChain(dbm.NewMemDB(), tmpHome(), accts, 100000, nil)
+		if err != nil {
+			return "fail #genesis " + err.Error()
+		}
+		b, _ := NewChain(dbm.NewMemDB(), tmpHome(), accts, 100000, nil)
+		t := a.Time
+		for i := 0; i < 2; i++ {
+			t = t.Add(5 * time.Second)
+			runBlock(a, t, nil)
+			runBlock(b, t, nil)
+		}
+		a = reopen(a)
+		var txs [][]byte
+		for i, route := range [][2]string{{"bank", "total-supply"}, {"bank", "no-such-route"}, {"staking", "module-accounts"}} {
+			m := &crisistypes.MsgVerifyInvariant{Sender: accts[i].Bech(), InvariantModuleName: route[0], InvariantRoute: route[1]}
+			tx, err := b.BuildTx(TxSpec{Msgs: []sdk.Msg{m}, Signers: []SignerSpec{{Acct: accts[i]}}, Fee: 1, Gas: 5000000})
+			if err != nil {
+				return "pass #cannot-build " + err.Error()
+			}
+			txs = append(txs, tx)
+		}
+		for i := 0; i < 2; i++ {
+			t = t.Add(5 * time.Second)
+			var bt [][]byte
+			if i == 0 {
+				bt = txs
+			}
+			ra, ha := runBlock(a, t, bt)
+			rb, hb := runBlock(b, t, bt)
+			if strings.Join(ra, "\n") != strings.Join(rb, "\n") {
+				code := func(rs []string, k int) string { return strings.SplitN(rs[k], "|", 2)[0] }
+				if i == 0 {
+					for k := range txs {
+						if code(ra, k) != code(rb, k) {
+							return fmt.Sprintf("fail #results-differ-from-uninterrupted-twin (message %d: code %s on the restarted node, %s on the other)", k, code(ra, k), code(rb, k))
+						}
+					}
+				}
+				return "fail #results-differ-from-uninterrupted-twin"
+			}
+			if !bytes.Equal(ha, hb) {
+				return "fail #apphash-differs-from-uninterrupted-twin"
 			}
 		}
 		return "pass"
